@@ -86,14 +86,17 @@ class Node:
 
         Use :meth:`is_scalar` to check which type the node has.
         """
+        # parse like PyYAML does when loading, so that e.g. 0x1F and .inf work
+        constructor = yaml.constructor.SafeConstructor()
         if self.yaml_node.tag == 'tag:yaml.org,2002:str':
             return str(self.yaml_node.value)
         if self.yaml_node.tag == 'tag:yaml.org,2002:int':
-            return int(self.yaml_node.value)
+            return cast(int, constructor.construct_yaml_int(self.yaml_node))
         if self.yaml_node.tag == 'tag:yaml.org,2002:float':
-            return float(self.yaml_node.value)
+            return cast(float, constructor.construct_yaml_float(
+                self.yaml_node))
         if self.yaml_node.tag == 'tag:yaml.org,2002:bool':
-            return self.yaml_node.value in ['TRUE', 'True', 'true']
+            return cast(bool, constructor.construct_yaml_bool(self.yaml_node))
         if self.yaml_node.tag == 'tag:yaml.org,2002:null':
             return None
         raise RuntimeError('This node with tag "{}" is not of the right type'
